@@ -406,50 +406,96 @@ func ruleC04Units(c *Ctx) {
 		}
 	}
 	// frozen from indexHeader: the metadata-only update keeps the old content position
-	if ih := c.fn("pkg/recovery", "indexHeader"); ih != nil {
-		info := ih.Pkg.TypesInfo
+	if ih0 := c.fn("pkg/recovery", "indexHeader"); ih0 != nil {
 		conv := c.fn("internal/converters", "TarHeaderToDBHeader")
-		recP, blkP := paramVar(ih, "record"), paramVar(ih, "block")
-		nOld := 0
-		for _, cs := range ih.calls {
-			if cs.Target != conv || len(cs.Call.Args) != 5 {
-				continue
+		// indexHeader and the same-package helpers it hands (record, block) to (an arm moved into a function)
+		type scope struct {
+			f          *FuncInfo
+			recP, blkP *types.Var
+		}
+		scopes := []scope{{ih0, paramVar(ih0, "record"), paramVar(ih0, "block")}}
+		for i := 0; i < len(scopes) && i < 8; i++ {
+			sc := scopes[i]
+			info := sc.f.Pkg.TypesInfo
+			for _, cs := range sc.f.calls {
+				g := cs.Target
+				if g == nil || g.Pkg != sc.f.Pkg || g.Obj == nil || g.Body() == nil {
+					continue
+				}
+				dup := false
+				for _, o := range scopes {
+					if o.f == g {
+						dup = true
+					}
+				}
+				if dup {
+					continue
+				}
+				sig := g.Obj.Type().(*types.Signature)
+				var r, b *types.Var
+				for j, a := range cs.Call.Args {
+					if j >= sig.Params().Len() {
+						break
+					}
+					if sc.recP != nil && objOfIdent(info, a) == types.Object(sc.recP) {
+						r = sig.Params().At(j)
+					}
+					if sc.blkP != nil && objOfIdent(info, a) == types.Object(sc.blkP) {
+						b = sig.Params().At(j)
+					}
+				}
+				if r != nil && b != nil {
+					scopes = append(scopes, scope{g, r, b})
+				}
 			}
-			a := cs.Call.Args
-			if fv := selField(info, a[0]); fv != nil {
-				nOld++
-				se0 := ast.Unparen(a[0]).(*ast.SelectorExpr)
-				se2, ok2 := ast.Unparen(a[2]).(*ast.SelectorExpr)
-				good := fv.Name() == "Record" && ok2 && se2.Sel.Name == "Block" && objOfIdent(info, se0.X) == objOfIdent(info, se2.X) &&
-					objOfIdent(info, a[1]) == types.Object(recP) && objOfIdent(info, a[3]) == types.Object(blkP)
-				c.verdictIf(good, rule, ih, "metadata-only update positions", cs.Call.Pos(), "keeps the old row's (Record, Block) as content position and advances last-known to the current record", "the metadata-only update does not pass (old.Record, current record, old.Block, current block)")
-			} else if objOfIdent(info, a[0]) == types.Object(recP) {
-				tv1 := info.Types[a[1]]
-				good := (objOfIdent(info, a[1]) == types.Object(recP) || tv1.Value != nil) && objOfIdent(info, a[2]) == types.Object(blkP)
-				c.verdictIf(good, rule, ih, fmt.Sprintf("current-position conversion@%s", exprString(a[1])), cs.Call.Pos(), "content position = position of the record being replayed", "a CREATE/content-UPDATE conversion does not use the current (record, block) for the content position")
+		}
+		nOld := 0
+		for _, sc := range scopes {
+			ih, recP, blkP := sc.f, sc.recP, sc.blkP
+			info := ih.Pkg.TypesInfo
+			for _, cs := range ih.calls {
+				if cs.Target != conv || len(cs.Call.Args) != 5 {
+					continue
+				}
+				a := cs.Call.Args
+				if fv := selField(info, a[0]); fv != nil {
+					nOld++
+					se0 := ast.Unparen(a[0]).(*ast.SelectorExpr)
+					se2, ok2 := ast.Unparen(a[2]).(*ast.SelectorExpr)
+					good := fv.Name() == "Record" && ok2 && se2.Sel.Name == "Block" && objOfIdent(info, se0.X) == objOfIdent(info, se2.X) &&
+						objOfIdent(info, a[1]) == types.Object(recP) && objOfIdent(info, a[3]) == types.Object(blkP)
+					c.verdictIf(good, rule, ih0, "metadata-only update positions", cs.Call.Pos(), "keeps the old row's (Record, Block) as content position and advances last-known to the current record", "the metadata-only update does not pass (old.Record, current record, old.Block, current block)")
+				} else if objOfIdent(info, a[0]) == types.Object(recP) {
+					tv1 := info.Types[a[1]]
+					good := (objOfIdent(info, a[1]) == types.Object(recP) || tv1.Value != nil) && objOfIdent(info, a[2]) == types.Object(blkP)
+					c.verdictIf(good, rule, ih0, fmt.Sprintf("current-position conversion@%s", exprString(a[1])), cs.Call.Pos(), "content position = position of the record being replayed", "a CREATE/content-UPDATE conversion does not use the current (record, block) for the content position")
+				}
 			}
 		}
 		if nOld == 0 {
 			// alternative shape: the row is built for the current position and then patched field by field
 			var recFrom, blkFrom types.Object
-			walkOwn(ih.Body(), func(nd ast.Node) {
-				as, ok := nd.(*ast.AssignStmt)
-				if !ok || len(as.Lhs) != 1 || len(as.Rhs) != 1 {
-					return
-				}
-				l, ok1 := ast.Unparen(as.Lhs[0]).(*ast.SelectorExpr)
-				r, ok2 := ast.Unparen(as.Rhs[0]).(*ast.SelectorExpr)
-				if !ok1 || !ok2 || l.Sel.Name != r.Sel.Name {
-					return
-				}
-				switch l.Sel.Name {
-				case "Record":
-					recFrom = objOfIdent(info, r.X)
-				case "Block":
-					blkFrom = objOfIdent(info, r.X)
-				}
-			})
-			c.verdictIf(recFrom != nil && recFrom == blkFrom, rule, ih, "metadata-only update positions", ih.Decl.Pos(), "the old row's Record and Block are both carried over",
+			for _, sc := range scopes {
+				info := sc.f.Pkg.TypesInfo
+				walkOwn(sc.f.Body(), func(nd ast.Node) {
+					as, ok := nd.(*ast.AssignStmt)
+					if !ok || len(as.Lhs) != 1 || len(as.Rhs) != 1 {
+						return
+					}
+					l, ok1 := ast.Unparen(as.Lhs[0]).(*ast.SelectorExpr)
+					r, ok2 := ast.Unparen(as.Rhs[0]).(*ast.SelectorExpr)
+					if !ok1 || !ok2 || l.Sel.Name != r.Sel.Name {
+						return
+					}
+					switch l.Sel.Name {
+					case "Record":
+						recFrom = objOfIdent(info, r.X)
+					case "Block":
+						blkFrom = objOfIdent(info, r.X)
+					}
+				})
+			}
+			c.verdictIf(recFrom != nil && recFrom == blkFrom, rule, ih0, "metadata-only update positions", ih0.Decl.Pos(), "the old row's Record and Block are both carried over",
 				"the metadata-only update does not keep the old row's content position as a (Record, Block) pair: after a chmod/chtimes the entry points at a place on the tape that is not the start of its content record")
 		}
 	}
